@@ -39,6 +39,3 @@
 (assert (forall ((c Str) (id Str) (c2 Str) (f Str) (v Val) (id2 Str)) (! (not (= (docKey c id) (entryKey c2 f v id2))) :pattern ((docKey c id) (entryKey c2 f v id2)))))
 (assert (forall ((c Str) (c2 Str) (f Str) (v Val) (id2 Str)) (! (not (= (collKey c) (entryKey c2 f v id2))) :pattern ((collKey c) (entryKey c2 f v id2)))))
 (assert (forall ((c Str) (c2 Str) (id Str)) (! (not (= (collKey c) (docKey c2 id))) :pattern ((collKey c) (docKey c2 id)))))
-; which keys are document keys, and of which collection (layout "c:<coll>;d:<id>"; collection names hold no ';'):
-; axioms of the key layout, like the separation axioms above
-(assert (forall ((c Str) (f Str) (v Val) (id Str)) (! (not (isDocKey (entryKey c f v id))) :pattern ((entryKey c f v id)))))
